@@ -212,6 +212,7 @@ func (*Lexer).tokenWithValue
   ensures lines: ret.Span().StartPos.Line == old(l.startLine) && ret.Span().StartPos.Column == old(l.startColumn)
   ensures endpos: tokEnd(ret) != tokStart(ret) ==> ret.Span().EndPos.Line == old(l.line) && ret.Span().EndPos.Column == wrapS64(old(l.column) - 1)
   ensures restart: l.startColumn == l.column && l.startLine == l.line
+  ensures kind: ret.Type == typ
   ensures wf: wfLex(l)
 
 func (*Lexer).token
@@ -219,18 +220,21 @@ func (*Lexer).token
   requires wfLex(l)
   assigns l.start, l.startColumn, l.startLine, fresh
   ensures cut: cutFrom(l, ret, old(l.start)) && tokStart(ret) == old(l.start) && l.cursor == old(l.cursor) && wfLex(l)
+  ensures kind: ret.Type == typ
 
 func (*Lexer).tokenWithConsumedValue
   props C04 C03
   requires wfLex(l)
   assigns l.start, l.startColumn, l.startLine, fresh
   ensures cut: cutFrom(l, ret, old(l.start)) && tokStart(ret) == old(l.start) && l.cursor == old(l.cursor) && wfLex(l)
+  ensures kind: ret.Type == typ
 
 func (*Lexer).lexError
   props C04 C03
   requires wfLex(l)
   assigns l.start, l.startColumn, l.startLine, fresh
   ensures cut: cutFrom(l, ret, old(l.start)) && tokStart(ret) == old(l.start) && l.cursor == old(l.cursor) && wfLex(l)
+  ensures kind: ret.Type == token.ERROR
 
 // ---- clients of the token stream -------------------------------------------------------------
 // Colouring copies the source piece by piece: the text between the previous token and this one,
